@@ -1,4 +1,4 @@
-\* non-vacuity: the expansion / mechanism deliberately broken (attr_of_any_directive); TLC must violate DenoteIsMeaning
+\* non-vacuity: the accessor of the columns tags / links hands out the attribute of any directive that has one (notes, documents); TLC must violate DenoteIsMeaning
 CONSTANTS
   Headers <- HeadersDef
   Pool <- Pool10
